@@ -22,6 +22,7 @@ void label_n(const char *name, long n); // add n to a counter
 void nontrivial();                     // the case satisfies the property's non-triviality rule
 void count_skipped(long n = 1);        // ops turned into no-ops by interpretive decoding
 void count_ops(long n = 1);
+void aux(const std::string &text);     // one free-form line for the driver (e.g. the scheduler's branch widths)
 void note(const char *fmt, ...) __attribute__((format(printf, 1, 2))); // trace line shown on replay / in failure message
 bool verbose();                        // true in --replay mode
 void finish_ok();                      // called by the glue after exec_case returned
